@@ -281,5 +281,69 @@ func TestVerifC01(t *testing.T) {
 			emit("member-forgery", hist, f.sym, uint64(720000+i), x, true, f.name)
 		}
 	}
+	// (E) a forged envelope that claims to come from the very device that opens it: the opener R has
+	// sealed messages itself (so it still holds their keys), a fellow member who registered R's chain
+	// key re-uses one of those counters with a payload R never signed
+	for round := 0; round < rounds; round++ {
+		kind := round % 3
+		acc := vNewAccount(t)
+		r := acc.store(t, W)
+		g := vGroup(t, kind, r)
+		if err := r.PutGroup(ctx, g); err != nil {
+			t.Fatal(err)
+		}
+		rmd, _ := r.GetOwnMemberDeviceForGroup(g)
+		rdevRaw, _ := rmd.Device().Raw()
+		gpk, _ := g.GetPubKey()
+		attAcc := vNewAccount(t)
+		att := attAcc.store(t, W)
+		amd, _ := att.GetOwnMemberDeviceForGroup(g)
+		if kind != 0 {
+			att = acc.store(t, W)
+			amd, _ = att.GetOwnMemberDeviceForGroup(g)
+		}
+		ann, err := r.GetShareableChainKey(ctx, g, amd.Member())
+		if err != nil {
+			t.Fatal(err)
+		}
+		if err := att.RegisterChainKey(ctx, g, rmd.Device(), ann); err != nil {
+			t.Fatal(err)
+		}
+		var own [][]byte
+		hist := []string{}
+		for k := 1; k <= 2; k++ {
+			p, _ := proto.Marshal(&protocoltypes.EncryptedMessage{Plaintext: []byte(fmt.Sprintf("own-%d", k))})
+			if _, err := r.SealEnvelope(ctx, g, p); err != nil {
+				t.Fatal(err)
+			}
+			own = append(own, p)
+			hist = append(hist, "RSealOwn 3")
+		}
+		forgedPayload, _ := proto.Marshal(&protocoltypes.EncryptedMessage{Plaintext: []byte("never written by the opening device")})
+		sigA, _ := amd.DeviceSign(forgedPayload)
+		for _, ctr := range []uint64{2, 1} {
+			key, err := att.getPrecomputedMessageKey(ctx, gpk, rmd.Device(), ctr)
+			if err != nil {
+				t.Fatal(err)
+			}
+			for i, sg := range [][]byte{sigA, nil} {
+				data := c01craft(g, rdevRaw, ctr, sg, key, forgedPayload)
+				x := c01try(ctx, r, g, nil, data, vCID(data))
+				signer := 2
+				if sg == nil {
+					signer = 0
+				}
+				obs := "OFail"
+				ok, note, sig := true, x.err, ""
+				if x.ok {
+					obs = "OOk 999999"
+					ok, sig = false, "forged envelope accepted"
+					note = fmt.Sprintf("a payload the opening device never signed, attributed to that device at counter %d by a fellow member, is delivered by the device's own store", ctr)
+				}
+				coq := fmt.Sprintf("CEnv %d %s (PForgedOwn 3 %d (3, %d) 999999 %d) %d (%s)", W, vharness.List(hist), ctr, ctr, signer, 730000+int(ctr)*10+i, obs)
+				out.Emit(vharness.Case{Kind: "own-device-forgery", Coq: coq, Key: coq + fmt.Sprint(round), Nontrivial: true, OracleOK: ok, Note: note, Sig: sig})
+			}
+		}
+	}
 	t.Logf("C01 harness: %d cases", out.N)
 }
